@@ -15,25 +15,25 @@ CHECKS = {
  "C03": ("exploration", "probing + bounded-exhaustive lattice enumeration (uniform and geometric) against a float64 derivation from the declared chromaticities",
          "All 18 coefficients per space are recovered by probing and compared with an independent derivation (Cramer's rule / Gauss-Jordan); additivity and both round trips are checked on every point of a uniform lattice and of a geometric lattice that reaches narrow bands next to 0 and 1, in and out of range.",
          "Between lattice points the claim rests on the additivity check on the lattice; published chromaticities are transcribed by hand in refs/color.go.", "benum", "5/C03"),
- "C04": ("exploration", "complete enumeration of all 2^24 RGB x 16 ordered space pairs (thorough) / dense lattice (quick) through the documented pipeline against a float64 colorimetric reference",
+ "C04": ("exploration", "complete enumeration of all 2^24 RGB x 16 ordered space pairs (thorough) / dense lattice (quick) through the documented pipeline against a float64 colorimetric reference; each pair also as the first conversions of a fresh process",
          "Every 8-bit RGB value at alpha 255 for each of the 16 ordered pairs, plus an alpha sweep, is pushed through the README pipeline on the real code and compared per channel with the interval allowed by the encoder law around the float64 reference value.",
          "Reference = standards' curves + matrices derived from declared chromaticities + linear Bradford; tolerance = C02's encoder law plus delta for the float32 pipeline.", "benum", "5/C04"),
  "C10": ("exploration", "complete enumeration of the configuration product (source type x destination type x bounds shape x parallelism x transform x in-place) with a whole-backing-array oracle; each transform also as the first library call of a fresh process; in-place runs also on neighbour-dependent pixel data",
          "Every configuration of the stated finite product is executed on the real code and every byte of the destination parent's backing array is compared with the per-pixel definition computed through the standard library's Set; identical for every parallelism and for in-place use by construction of the oracle.",
          "Trusts image/draw's Set/colour-model conversion as the definition of 'the destination colour model's conversion'.", "benum", "5/C10"),
- "C12": ("exploration", "bounded-exhaustive enumeration of white-point pairs/triples on a chromaticity lattice plus near-neighbour pairs against a float64 Bradford reference",
+ "C12": ("exploration", "bounded-exhaustive enumeration of white-point pairs/triples on a chromaticity lattice plus near-neighbour pairs and white luminances on either side against a float64 Bradford reference",
          "All ordered pairs of a 32x32 (quick) / 64x64 (thorough) chromaticity lattice and the CIE illuminants, near-neighbour pairs, all triples over a 79-point set, both constructors, and Apply on uniform+geometric XYZ lattices are executed and compared with an independent Bradford implementation and the algebraic laws.",
          "Complete over the stated lattices only; tolerance for the exact-chromaticity comparison is derived per pair from the sensitivity of the reference to float32 input rounding.", "benum", "5/C12"),
  "C13": ("exploration", "bounded-exhaustive lattice enumeration (uniform + geometric + every float32 in the junction window) against the float64 CIE 1976 definition",
          "XYZ lattices x 8 whites, every float32 whose ratio lies within 1e-6 of the junction on each axis, a 2^20-step Y ramp, a Lab lattice and multiples of the white are executed on the real code and compared with the CIE definition, its inverse, monotonicity, continuity and round-trip bounds.",
          "Complete over the stated lattices only; 1e-3 bound widened by one float32 ulp of the result.", "benum", "5/C13"),
- "C14": ("exploration", "complete enumeration of all 16-bit (channel, alpha) pairs with channel <= alpha per curve (thorough), all alphas x boundary channels (quick), all 8-bit pairs, float32 alpha alphabet",
+ "C14": ("exploration", "complete enumeration of all 16-bit (channel, alpha) pairs with channel <= alpha per curve (thorough), all alphas x boundary channels (quick), all 8-bit pairs, float32 alpha alphabet; image functions into fresh and pre-filled destinations",
          "Thorough walks all 2.1e9 premultiplied pairs per space through LineariseColor; both tiers walk all 65,536 alphas through every constructor/converter and all 65,536 8-bit (channel, alpha) pairs; expected alpha is computed with math/big.",
          "Zero-colour clause applied to premultiplied and generic constructors only (see assumptions).", "benum", "5/C14"),
  "C15": ("exploration", "complete enumeration of helper x image type x bounds x sub-image x content pattern x parallelism, differential against image/draw",
          "Every configuration of the stated finite product is executed and compared byte-for-byte with draw.Draw(Src); thorough adds an image holding all 2^24 YCbCr triples; both tiers include all 8-bit (channel, alpha) pairs.",
          "Trusts image/draw as the specification, as the property states.", "benum", "5/C15"),
- "C20": ("exploration", "bounded-exhaustive enumeration of primaries triangles x whites on a chromaticity lattice and of 3x3 matrices over dyadic and non-dyadic alphabets against Cramer / Gauss-Jordan references",
+ "C20": ("exploration", "bounded-exhaustive enumeration of primaries triangles x whites on a chromaticity lattice and of 3x3 matrices over dyadic and non-dyadic alphabets against Cramer / Gauss-Jordan references; every sequence of up to 3 requests (both directions / forward only / inverse only)",
          "All lattice triangles with area >= 0.01 x all interior lattice whites, 21 published spaces in all orders, every matrix over the entry alphabets (Inverse, MulM both ways x 14 partners, MulV, Transpose) and every repeated/zero-column singular matrix are executed on the real code.",
          "Complete over the stated alphabets only; tolerance 4e-7*(1+cond) for the package's float32 xyY->XYZ step.", "benum", "5/C20"),
 }
